@@ -78,9 +78,9 @@ class C16(Check):
             try:
                 if case["kind"] == "up":
                     srv.objects[key] = val
-                    res = await asyncio.wait_for(t.sdo_read(index, sub), 10)
+                    res = await asyncio.wait_for(t.sdo_read(index, sub), 120)
                 else:
-                    await asyncio.wait_for(t.sdo_write(val, index, sub), 10)
+                    await asyncio.wait_for(t.sdo_write(val, index, sub), 120)
             except (EtherCatError, TypeError, struct.error, ValueError) as e:
                 res = Err(5, f"{type(e).__name__}: {e}")
             except asyncio.TimeoutError:
